@@ -54,6 +54,8 @@ class Builder:
             cfg["short_w"] = rng.choice([1, 3, 7, 64])
         if buggify and rng.random() < 0.5:
             cfg["short_r"] = rng.choice([1, 2, 5, 64])
+        if buggify:
+            cfg["mtime_mode"] = rng.choice(["real", "real", "frozen", "frozen", "backwards"])
         return cfg
 
     def write_fault(self):
@@ -167,6 +169,12 @@ def plan_serialise(seed, tier):
                     cands = [w for w in written if w[1] in HAS_READER]
                     if cands:
                         path, fmt, _h = rng.choice(cands)
+                        if nonascii_bias and rng.random() < 0.25:
+                            # a bad medium damages one multi-byte character: the file is not
+                            # UTF-8 any more and must not be read as if it were
+                            b.op(op="CORRUPT", path=path, kind="utf8_break", frac=rng.random(),
+                                 fmt=fmt)
+                            written = [w for w in written if w[0] != path]
                         b.op(op="READ", fmt=fmt, path=path, c12_names=True,
                              pathstyle=rng.choice(["abs", "rel"]))
                 else:
@@ -308,7 +316,7 @@ def plan_roundtrip(fmts, seed, tier):
                 b.op(**rop)
             elif k < 0.9 and faulty and lin["path"] is not None:
                 kind = rng.choice(["bitflip", "subst", "zero_sector", "dup_sector",
-                                   "drop_sector", "truncate"])
+                                   "drop_sector", "truncate", "utf8_break"])
                 b.op(op="CORRUPT", path=lin["path"], kind=kind, frac=rng.random(),
                      bit=rng.randint(0, 7), byte=rng.choice([0x24, 0x00, 0xff, 0x7b, 0x3c, 0x22]),
                      sector=rng.choice([16, 64]), fmt=fmt)
@@ -364,14 +372,38 @@ def _is_readback(b, handle):
 
 
 def _insert_torn_reads(b):
+    """The segment after a kill first reads what the killed writer left, then (recovery) writes
+    a model to the same path and reads it back: a clean write must fully replace the debris."""
     segs = b.plan["segments"]
     for sidx in range(len(segs) - 1):
         ops = segs[sidx]["ops"]
         if ops and ops[-1]["op"] == "WRITE" and (ops[-1].get("fault") or {}).get("kind") == "tear":
-            op = {"op": "READ", "fmt": ops[-1]["fmt"], "path": ops[-1]["path"], "pathstyle": "abs",
-                  "missing_ok": True, "i": b.i}
-            b.i += 1
-            segs[sidx + 1]["ops"].insert(0, op)
+            fmt, path = ops[-1]["fmt"], ops[-1]["path"]
+            new_ops = [{"op": "READ", "fmt": fmt, "path": path, "pathstyle": "abs",
+                        "missing_ok": True}]
+            src = None
+            for seg in segs[:sidx + 1]:
+                for o in seg["ops"]:
+                    if o["op"] == "NEW" and o.get("frag") == fmt:
+                        src = o
+            if src is not None and b.rng.random() < 0.7:
+                h = b.handle()
+                ref = src["ref"]
+                if b.rng.random() < 0.5:
+                    # a much smaller document than what the killed writer was producing
+                    small = {"size": "s", "maxdepth": 1, "p_group": 0.0, "max_ctcs": 0,
+                             "p_attr": 0.0, "p_abstract": 0.0, "p_typed": 0.0, "p_fcard": 0.0}
+                    ref = gen.gen_model(b.rng, fmt, rm.names(src["ref"])[:3] + ["Zz9"], small)
+                new_ops.append({"op": "NEW", "m": h, "ref": ref, "style": "td",
+                                "frag": fmt})
+                new_ops.append({"op": "WRITE", "fmt": fmt, "m": h, "path": path,
+                                "writer": "fresh", "pathstyle": "abs"})
+                new_ops.append({"op": "READ", "fmt": fmt, "path": path, "pathstyle": "abs",
+                                "as": b.handle()})
+            for k, o in enumerate(new_ops):
+                o["i"] = b.i
+                b.i += 1
+                segs[sidx + 1]["ops"].insert(k, o)
 
 
 for _fmt in HAS_READER:
